@@ -113,7 +113,8 @@ PROPS["C14"] = {
     "module": "RCE.Props.C14chess",
     "theorems": ["RCE.Props.C14.info_depths", "RCE.Props.C14.depth_limit_complete", "RCE.Props.C14.pv_legal", "RCE.Props.C14.pv_nonempty", "RCE.Props.C14.info_score_present", "RCE.Props.C14.chess_pv_legal_by_the_rules", "RCE.Props.C14.chess_pv_nonempty"],
     "streams": {"quick": [SP_Q, S("search-budget", "budget", 16, 2, extra=["--step", 7, "--maxcases", 40]), S("search-game", "game", 48, 4, extra=["--plies", 8])],
-                "thorough": [SP_T, S("search-budget", "budget", 64, 3, extra=["--step", 11, "--maxcases", 300]), SK_T, S("search-game", "game", 400, 5, extra=["--plies", 12])]},
+                "thorough": [SP_T, S("search-budget", "budget", 64, 3, extra=["--step", 11, "--maxcases", 300]), SK_T, S("search-game", "game", 400, 5, extra=["--plies", 12]),
+                             {"name": "search-benchkeep", "stream": "search", "driver": "search:0", "args": ["--mode", "file", "--cases", "work/bench_keep_cases.txt"]}]},
     "eval_key": "cases", "distinct_key": "distinct_cases",
     "rule": SEARCH_RULE + "; for C14: every info line is checked against the UCI token grammar, depths must be 1,2,3,... in order, every PV is replayed move by move "
             "on the rules spec and must have at least one move, and an unlimited depth-N search must report all N depths (also at roots with a single legal move and at roots that repeat an earlier position of the game)",
@@ -153,7 +154,8 @@ PROPS["C16"] = {
                           dict(S("search-xcheck", "xcheck", 2400, 4, extra=["--repeat", 2]), driver="search:0")],
                 "thorough": [S("search-plain", "plain", 400, 4, extra=["--repeat", 3]), S("search-deep", "deep", 4, 7, shards=4, extra=["--repeat", 3]),
                              dict(S("search-xcheck", "xcheck", 40000, 5, extra=["--repeat", 2]), driver="search:0"),
-                             {"name": "search-bench", "stream": "search", "driver": "search:0", "shards": 16, "args": ["--mode", "file", "--cases", "work/bench_cases.txt"]}]},
+                             {"name": "search-bench", "stream": "search", "driver": "search:0", "shards": 16, "args": ["--mode", "file", "--cases", "work/bench_cases.txt"]},
+                             {"name": "search-benchkeep", "stream": "search", "driver": "search:0", "args": ["--mode", "file", "--cases", "work/bench_keep_cases.txt"]}]},
     "eval_key": "cases", "distinct_key": "distinct_cases",
     "rule": SEARCH_RULE + "; thorough: the 62 bench positions to bench::MAXDEPTH in-process, node counts and every cache write equal to the model's (the bench node total is their sum); for C16: every case is run three times in one process from a fresh cache and all outputs (info lines, bestmove, every cache insert, counters, cache checksum) "
             "must be identical to each other and to the model's single prediction; 2400 (thorough 40000) random open positions with several queens (checks answered by checks, extensions far beyond the nominal depth) are each searched twice in a row in one thread and compared with themselves; the process-level part runs the real binary in separate processes, under 16-way CPU load, and the bench subcommand twice",
@@ -203,8 +205,8 @@ PROPS["C03"] = {
     "module": "RCE.Props.C03",
     "theorems": ["RCE.Props.C03.make_refines", "RCE.Props.C03.make_legal", "RCE.Props.C03.game_refines",
                  "RCE.Props.C03.repetition_record", "RCE.Props.C03.start_legal"],
-    "streams": {"quick": [WALK_Q], "thorough": [WALK_T]},
-    "rule": WALK_RULE + "; for C03 after every move of every game the implementation's placement (x64), side to move, four rights, en-passant file, half-move clock, full-move number "
+    "streams": {"quick": [WALK_Q, FEN_Q], "thorough": [WALK_T, FEN_T]},
+    "rule": WALK_RULE + "; plus the generated FEN family (half-move clocks up to 650, move numbers up to 6000) with a few moves played from every loaded position; for C03 after every move of every game the implementation's placement (x64), side to move, four rights, en-passant file, half-move clock, full-move number "
             "are compared with the rules state machine, its FEN with the spec's rendering, and its repetition record with the multiset of keys of the earlier positions on the path",
     "assumptions": ["u16 wrap of the two counters is outside the model (Nat); a legal game cannot reach 65535"],
 }
